@@ -1344,7 +1344,7 @@ static void do_swapv(const Op* o) {
 /* ---------------------------------------------------------------- views */
 static var view_even(var x) { return (c_int(x) % 2 == 0) ? x : NULL; }   /* filter / map hand the element itself to the function */
 static struct Int g_map_out;
-static var view_double(var args) { static char buf[sizeof(struct Header) + sizeof(struct Int)]; struct Int* o = header_init(buf, Int, AllocStatic); o->val = c_int(args) * 2 + 1; (void)g_map_out; return o; }
+static var view_double(var args) { static char buf[sizeof(struct Header) + sizeof(struct Int)]; struct Int* o = header_init(buf, Int, AllocStatic); o->val = (int64_t)((uint64_t)c_int(args) * 2u + 1u);   /* wraps, by definition */ (void)g_map_out; return o; }
 
 /* iteration views over a sequence of integers: what they yield is emitted into the transcript (C18 compares it across build
  * configurations) and checked against the definition computed from the model.  In-contract parameters only. */
@@ -1397,7 +1397,7 @@ static void do_view(const Op* o) {
     case 4: { /* map: images in order */
       foreach (x in map(c->obj, $(Function, view_double))) {
         if (cnt >= n) VIOL(c, "view-map-too-long", "map yields more than len");
-        if (c_int(x) != elemv(c, cnt) * 2 + 1) VIOL(c, "view-map-mismatch", "map item %d differs", cnt);
+        if (c_int(x) != (int64_t)((uint64_t)elemv(c, cnt) * 2u + 1u)) VIOL(c, "view-map-mismatch", "map item %d differs", cnt);
         TR("mp %lld", (long long)c_int(x)); cnt++;
       }
       if (cnt != n) VIOL(c, "view-map-too-short", "map yields %d of %d", cnt, n);
@@ -1738,7 +1738,7 @@ static void containers_generate(Plan* p, Rng* r) {
     int fault = (g->managed && rng_chance(r, 1, 8)) ? 1 : 0;
     uint32_t d = rng_below(r, 100);
     int64_t rv = (int64_t)rng_below(r, 1000), ri = (int64_t)rng_below(r, 1000) - 500;
-    if ((int)d < badpct) { plan_add(p, O_BAD, 0, 0, ca, rng_below(r, 32), (int64_t)rng_below(r, 5000), 0, 0, 0); continue; }
+    if ((int)d < badpct) { int64_t b2 = (int64_t)rng_below(r, 5000), b1 = rng_below(r, 32); plan_add(p, O_BAD, 0, 0, ca, b1, b2, 0, 0, 0); continue; }
     d = rng_below(r, 100);
     /* structural ops common to all kinds */
     if (d < 2 && focus != 16) { gen_new(p, r, focus); continue; }
@@ -1758,16 +1758,16 @@ static void containers_generate(Plan* p, Rng* r) {
       continue; }
     if (d < (uint32_t)(focus == 10 ? 22 : 13)) { plan_add(p, O_TWIN, 0, fault, ca, rng_below(r, 4), 0, 0, 0, 0); continue; }
     if (d < (uint32_t)(focus == 10 ? 24 : 15)) { plan_add(p, O_CHECK, 0, fault, ca, 0, 0, 0, 0, 0); continue; }
-    if ((focus == 10 || focus == 0) && d < 30) { plan_add(p, O_SWAPV, 0, 0, rng_below(r, 7), (int64_t)rng_below(r, 1000000), (int64_t)rng_below(r, 1000000), 0, 0, 0); continue; }
+    if ((focus == 10 || focus == 0) && d < 30) { int64_t s3 = (int64_t)rng_below(r, 1000000), s2 = (int64_t)rng_below(r, 1000000), s1 = rng_below(r, 7); plan_add(p, O_SWAPV, 0, 0, s1, s2, s3, 0, 0, 0); continue; }
     d = rng_below(r, 100);
     if (g->kind == K_STRING) {
       int64_t m = rng_below(r, 7), x = (int64_t)rng_below(r, 100000);
       if (d < 12) plan_add(p, O_SASSIGN, 0, fault, ca, m, x, 0, 0, 0);
       else if (d < 42) plan_add(p, O_SCONCAT, 0, fault, ca, m, x, rng_below(r, 2), 0, 0);
-      else if (d < 64) plan_add(p, O_SREM, 0, fault, ca, rng_chance(r, 3, 4) ? 1 + rng_below(r, 5) : 0, x, 0, 0, 0);
+      else if (d < 64) { int64_t m1 = rng_chance(r, 3, 4) ? 1 + rng_below(r, 5) : 0; plan_add(p, O_SREM, 0, fault, ca, m1, x, 0, 0, 0); }
       else if (d < 72) plan_add(p, O_SMEM, 0, fault, ca, m, x, 0, 0, 0);
       else if (d < 86) plan_add(p, O_RESIZE, 0, fault, ca, x, 0, 0, 0, 0);
-      else plan_add(p, O_SPRINT, 0, fault, ca, x, rng_below(r, focus == 18 ? 11 : 12), (int64_t)rng_below(r, 2000) - 1000, 0, 0);
+      else { int64_t p3 = (int64_t)rng_below(r, 2000) - 1000, p2 = rng_below(r, focus == 18 ? 11 : 12); plan_add(p, O_SPRINT, 0, fault, ca, x, p2, p3, 0, 0); }
       continue;
     }
     if (g->kind == K_TABLE || g->kind == K_TREE) {
@@ -1796,7 +1796,7 @@ static void containers_generate(Plan* p, Rng* r) {
     }
     /* sequences: modes 0 grow, 1 shrink, 2/3 mix */
     if (g->kind != K_STRING && g->kind != K_TUPLE && rng_chance(r, 1, 25)) { plan_add(p, O_ELEMCAT, 0, fault, ca, (int64_t)rng_below(r, 100000), 0, 0, 0, 0); continue; }
-    if ((focus == 18 || focus == 0) && d < 12) { plan_add(p, O_VIEW, 0, 0, ca, rng_below(r, 6), rv, (int64_t)rng_below(r, 1000), 0, 0); continue; }
+    if ((focus == 18 || focus == 0) && d < 12) { int64_t v3 = (int64_t)rng_below(r, 1000), v1 = rng_below(r, 6); plan_add(p, O_VIEW, 0, 0, ca, v1, rv, v3, 0, 0); continue; }
     if (mode == 0) {
       if (d < 55) plan_add(p, O_PUSH, 0, fault, ca, rv, rng_below(r, 2), 0, 0, 0);
       else if (d < 80) plan_add(p, O_PUSH_AT, 0, fault, ca, rv, ri, 0, 0, 0);
